@@ -155,6 +155,8 @@ static void unary_case(long idx) {
             SimpleString b = a.subString(p, am);
             expect_eq("subString(pos,amount)/wrong-result", val(b), ref_substr(s, p, am), vf::fmt("%s.subString(%s, %s)", S.c_str(), pos_s(p).c_str(), pos_s(am).c_str()));
             check_own("subString(pos,amount)", b, S);
+            SimpleString ap = a.subString(p, am); ap += "z";  // the (internally truncated) result must behave like any string with that text
+            expect_eq("operator+=/wrong-after-in-place-shortening", val(ap), ref_substr(s, p, am) + "z", vf::fmt("%s.subString(%s, %s) then += \"z\"", S.c_str(), pos_s(p).c_str(), pos_s(am).c_str()));
             SimpleString c; c = b;          // the truncated result must copy to an exactly sized buffer
             expect_eq("subString(pos,amount)/copy-of-result-differs", val(c), val(b), S);
             check_own("subString(pos,amount)", c, S);
@@ -231,6 +233,49 @@ static void unary_case(long idx) {
             expect_eq("replace(char,char)/wrong-result", val(a), want, vf::fmt("%s.replace(0x%02x, 0x%02x)", S.c_str(), (unsigned char)c1, (unsigned char)c2));
             check_own("replace(char,char)", a, S);
         });
+        // replacement byte NUL: the string is shortened in place (text = up to the first replaced byte, the buffer
+        // keeps its size); the object must then behave like any string with that text
+        for (char c1 : FCH) {
+            str cut = s.substr(0, s.find(c1));
+            std::string what = vf::fmt("%s.replace(0x%02x, NUL)", S.c_str(), (unsigned char)c1);
+            if (cut != s) changed++;
+            scoped("replace(char,NUL)", what, [&] {
+                SimpleString a(es);
+                a.replace(c1, '\0');
+                expect_eq("replace(char,NUL)/wrong-result", val(a), cut, what);
+                expect_num("replace(char,NUL)/size-after-wrong", (long long)a.size(), (long long)cut.size(), what + " then size()");
+                check_own("replace(char,NUL)", a, what);
+                // d, e, g, h: shortened in place themselves (a copy would get an exactly sized buffer again)
+                SimpleString b(a), c("zz"), d(es), e(es), f("q"), g(es);
+                d.replace(c1, '\0'); e.replace(c1, '\0'); g.replace(c1, '\0');
+                c = a;
+                expect_eq("replace(char,NUL)/copy-after-wrong", val(b) + "|" + val(c), cut + "|" + cut, what + " then copy / assign");
+                expect_num("replace(char,NUL)/compare-after-wrong", (a == b) && !(a != c) && a.equalsNoCase(b) && a.contains(b) && a.endsWith(b) && a.startsWith(b), 1, what + " then compare with its copy");
+                vf::ctx("shorten-then-append");
+                d += "xy";
+                expect_eq("operator+=/wrong-after-in-place-shortening", val(d), cut + "xy", what + " then += \"xy\"");
+                e += a;
+                expect_eq("operator+=/wrong-after-in-place-shortening", val(e), cut + cut, what + " then += the shortened string");
+                g += g;
+                expect_eq("operator+=/wrong-after-in-place-shortening", val(g), cut + cut, what + " then self-append");
+                expect_eq("operator+/wrong-after-in-place-shortening", val(a + f) + "|" + val(f + a), cut + "q|q" + cut, what + " then + \"q\" on either side");
+                check_own("operator+=", d, what); check_own("operator+=", e, what); check_own("operator+=", g, what);
+                vf::ctx("shorten-then-pad");
+                SimpleString h(es), w("wwwww");
+                h.replace(c1, '\0');
+                SimpleString::padStringsToSameLength(h, w, ' ');
+                size_t m = std::max<size_t>(cut.size(), 5);
+                expect_eq("padStringsToSameLength/wrong-after-in-place-shortening", val(h) + "|" + val(w), str(m - cut.size(), ' ') + cut + "|" + str(m - 5, ' ') + "wwwww", what + " then pad against \"wwwww\"");
+                vf::ctx("shorten-then-more");
+                expect_eq("lowerCase/wrong-after-in-place-shortening", val(a.lowerCase()), ref_lower(cut), what + " then lowerCase()");
+                expect_eq("subString(pos)/wrong-after-in-place-shortening", val(a.subString(1)), ref_substr(cut, 1, str::npos), what + " then subString(1)");
+                SimpleString r(es); r.replace(c1, '\0'); r.replace("a", "bb");
+                expect_eq("replace(to,with)/wrong-after-in-place-shortening", val(r), ref_replace(cut, "a", "bb"), what + " then replace(\"a\",\"bb\")");
+                char buf[8]; memset(buf, '%', sizeof buf);
+                a.copyToBuffer(buf, sizeof buf);
+                expect_eq("copyToBuffer/wrong-after-in-place-shortening", str(buf, strnlen(buf, sizeof buf)), cut.substr(0, 7), what + " then copyToBuffer(8)");
+            });
+        }
         vf::outcome(vf::fmt("g7 changed=%d", changed > 9 ? 9 : changed));
         break;
     }
